@@ -1,4 +1,692 @@
 package main
 
-func cmdCheck(args []string)  {}
-func cmdReplay(args []string) {}
+// check / replay commands: per-property driver, native replay, known findings, evidence.
+
+import (
+	"bytes"
+	"crypto/sha256"
+	"crypto/sha512"
+	"encoding/binary"
+	"encoding/hex"
+	"encoding/json"
+	"flag"
+	"fmt"
+	"os"
+	"os/exec"
+	"path/filepath"
+	"runtime"
+	"sort"
+	"strconv"
+	"strings"
+	"time"
+
+	"golang.org/x/tools/go/ssa"
+)
+
+type HarnessCfg struct {
+	Name       string         `json:"name"`
+	Params     map[string]int `json:"params,omitempty"`
+	Unwind     int            `json:"unwind,omitempty"`
+	TimeoutMs  int            `json:"timeout_ms,omitempty"`
+	Witness    int            `json:"witness,omitempty"`
+	Solver     string         `json:"solver,omitempty"`
+	Cross      []string       `json:"cross,omitempty"` // re-run on these solvers and compare verdicts
+	MapReverse bool           `json:"map_reverse,omitempty"`
+	Workers    int            `json:"workers,omitempty"`
+	BudgetS    int            `json:"budget_s,omitempty"`
+	Note       string         `json:"note,omitempty"`
+	Optional   bool           `json:"optional,omitempty"` // skip (and say so) if the harness function no longer type-checks
+}
+
+type PropCfg struct {
+	Title       string              `json:"title"`
+	Quick       []HarnessCfg        `json:"quick"`
+	Thorough    []HarnessCfg        `json:"thorough"`
+	Assumptions []string            `json:"assumptions"`
+	Bounds      map[string]string   `json:"bounds"`
+	Symbolic    []string            `json:"symbolic_dimensions"`
+	CaseSplit   []string            `json:"case_split_dimensions"`
+	Stubs       []string            `json:"stubs"`
+	Outside     []string            `json:"outside_claim"`
+	Extra       map[string][]string `json:"extra,omitempty"`
+}
+
+type KnownFinding struct {
+	State, Property, Tag, What string
+}
+
+func loadKnownFindings() []KnownFinding {
+	b, err := os.ReadFile(filepath.Join(verifRoot, "KNOWN_FINDINGS.txt"))
+	if err != nil {
+		return nil
+	}
+	var out []KnownFinding
+	for _, line := range strings.Split(string(b), "\n") {
+		line = strings.TrimSpace(line)
+		if line == "" || strings.HasPrefix(line, "#") {
+			continue
+		}
+		kf := KnownFinding{}
+		switch {
+		case strings.HasPrefix(line, "open:"):
+			kf.State = "open"
+		case strings.HasPrefix(line, "fixed:"):
+			kf.State = "fixed"
+		default:
+			continue
+		}
+		for _, f := range strings.Fields(line) {
+			if strings.HasPrefix(f, "property=") {
+				kf.Property = f[len("property="):]
+			}
+			if strings.HasPrefix(f, "tag=") {
+				kf.Tag = f[len("tag="):]
+			}
+		}
+		if i := strings.Index(line, "what="); i >= 0 {
+			kf.What = strings.Trim(line[i+5:], "\"")
+		}
+		out = append(out, kf)
+	}
+	return out
+}
+
+// ---- native replay ----
+
+type replayer struct {
+	bin      string
+	buildErr string
+	ready    chan struct{}
+	files    []string
+}
+
+func harnessNames(pkg *ssa.Package) []string {
+	var out []string
+	for name, m := range pkg.Members {
+		f, ok := m.(*ssa.Function)
+		if !ok || f.Signature.Params().Len() != 0 || f.Signature.Results().Len() != 0 || f.Signature.Recv() != nil {
+			continue
+		}
+		if strings.HasPrefix(name, "Harness") || strings.HasPrefix(name, "Lemma") {
+			out = append(out, name)
+		}
+	}
+	sort.Strings(out)
+	return out
+}
+
+func outDir() string {
+	d := filepath.Join(verifRoot, "out")
+	os.MkdirAll(filepath.Join(d, "replay"), 0o755)
+	return d
+}
+
+// startReplayBuild compiles the native replay test binary from /repo's current tree in the background.
+func startReplayBuild(pkg *ssa.Package, files []string, tag string) *replayer {
+	r := &replayer{ready: make(chan struct{}), files: files}
+	go func() {
+		defer close(r.ready)
+		od := outDir()
+		tmpl, err := os.ReadFile(filepath.Join(verifRoot, "harness", "replay_main_test.go.tmpl"))
+		if err != nil {
+			r.buildErr = err.Error()
+			return
+		}
+		var reg strings.Builder
+		for _, n := range harnessNames(pkg) {
+			fmt.Fprintf(&reg, "\t%q: %s,\n", n, n)
+		}
+		mainFile := filepath.Join(od, "replay_main_"+tag+"_test.go")
+		os.WriteFile(mainFile, bytes.Replace(tmpl, []byte("\t//REGISTRY//\n"), []byte(reg.String()), 1), 0o644)
+		ov := map[string]map[string]string{"Replace": {}}
+		for _, f := range files {
+			ov["Replace"][filepath.Join(repoDir, "zz_verif_"+filepath.Base(f))] = f
+		}
+		ov["Replace"][filepath.Join(repoDir, "zz_verif_intrinsics_native.go")] = filepath.Join(verifRoot, "harness", "intrinsics_native.go")
+		ov["Replace"][filepath.Join(repoDir, "zz_verif_replay_main_test.go")] = mainFile
+		ob, _ := json.Marshal(ov)
+		ovFile := filepath.Join(od, "overlay_"+tag+".json")
+		os.WriteFile(ovFile, ob, 0o644)
+		bin := filepath.Join(od, "replay_"+tag+".test")
+		cmd := exec.Command("go", "test", "-c", "-vet=off", "-tags", "verif verifreplay", "-overlay", ovFile, "-o", bin, ".")
+		cmd.Dir = repoDir
+		cmd.Env = append(os.Environ(), "GOFLAGS=-mod=mod", "GOPROXY=off", "GOSUMDB=off", "GOTOOLCHAIN=local")
+		out, err := cmd.CombinedOutput()
+		if err != nil {
+			r.buildErr = fmt.Sprintf("replay build failed: %v\n%s", err, out)
+			return
+		}
+		r.bin = bin
+	}()
+	return r
+}
+
+type nativeResult struct {
+	File    string   `json:"file"`
+	Status  string   `json:"status"`
+	ID      string   `json:"id"`
+	Reached []string `json:"reached"`
+	Obs     []string `json:"obs"`
+	Unused  int      `json:"unused"`
+}
+
+// run replays the given vector files natively (sequentially, one process per batch; restarts after a timeout).
+func (r *replayer) run(files []string, timeoutMs int) (map[string]nativeResult, error) {
+	<-r.ready
+	if r.buildErr != "" {
+		return nil, fmt.Errorf("%s", r.buildErr)
+	}
+	res := map[string]nativeResult{}
+	rest := files
+	for len(rest) > 0 {
+		batch := rest
+		if len(batch) > 200 {
+			batch = batch[:200]
+		}
+		cmd := exec.Command(r.bin, "-test.run", "^TestVerifReplay$", "-test.timeout", "0")
+		cmd.Dir = repoDir
+		cmd.Env = append(os.Environ(), "VERIF_REPLAY_FILES="+strings.Join(batch, ":"), fmt.Sprintf("VERIF_REPLAY_TIMEOUT_MS=%d", timeoutMs))
+		out, _ := cmd.CombinedOutput()
+		n := 0
+		for _, line := range strings.Split(string(out), "\n") {
+			if strings.HasPrefix(line, "VERIF-RESULT ") {
+				var nr nativeResult
+				if json.Unmarshal([]byte(line[len("VERIF-RESULT "):]), &nr) == nil {
+					res[nr.File] = nr
+					n++
+				}
+			}
+		}
+		if n == 0 {
+			return res, fmt.Errorf("replay binary produced no result: %s", truncate(string(out), 2000))
+		}
+		rest = rest[n:]
+	}
+	return res, nil
+}
+
+func truncate(s string, n int) string {
+	if len(s) > n {
+		return s[:n] + "..."
+	}
+	return s
+}
+
+func atomBytes(id uint64) [32]byte {
+	var b [12]byte
+	copy(b[:], "atom")
+	binary.LittleEndian.PutUint64(b[4:], id)
+	return sha256.Sum256(b[:])
+}
+
+func (h *HashJS) concrete() [32]byte {
+	if h == nil || h.Z {
+		return [32]byte{}
+	}
+	if h.A != nil {
+		return atomBytes(*h.A)
+	}
+	l, r := h.L.concrete(), h.R.concrete()
+	return sha512.Sum512_256(append(l[:], r[:]...))
+}
+
+// ---- evidence ----
+
+type Evidence struct {
+	PropertyID  string                 `json:"property_id"`
+	Tier        string                 `json:"tier"`
+	Seed        int                    `json:"seed"`
+	Level       string                 `json:"level"`
+	Coverage    map[string]interface{} `json:"coverage"`
+	Assumptions []string               `json:"assumptions"`
+	WallS       float64                `json:"wall_s"`
+	Violations  int                    `json:"violations"`
+}
+
+type harnessReport struct {
+	Name          string            `json:"harness"`
+	Params        map[string]int    `json:"params"`
+	Solver        string            `json:"solver"`
+	Paths         int               `json:"paths"`
+	Done          int               `json:"completed_paths"`
+	Infeasible    int               `json:"infeasible_paths"`
+	Forks         int               `json:"fork_decisions"`
+	Pruned        int               `json:"branches_pruned_by_solver"`
+	UnknownFeas   int               `json:"feasibility_unknown_kept"`
+	Asserts       int               `json:"assertions_reached"`
+	Folded        int               `json:"assertions_folded_by_simplifier"`
+	AssertQueries int               `json:"assertion_queries"`
+	AssertUnknown int               `json:"assertion_unknown"`
+	UnwindHits    int               `json:"unwinding_assertions_failed"`
+	PanicPaths    int               `json:"panic_paths"`
+	ErrorPaths    int               `json:"engine_error_paths"`
+	Queries       map[string][3]int `json:"queries_by_kind_sat_unsat_unknown"`
+	SolverS       float64           `json:"solver_s"`
+	WallS         float64           `json:"wall_s"`
+	Steps         int64             `json:"ssa_instructions_executed"`
+	Reached       map[string]int    `json:"reach_markers"`
+	Cross         map[string]string `json:"cross_check,omitempty"`
+	Incomplete    bool              `json:"incomplete"`
+	Unwind        int               `json:"unwind_bound"`
+	Skipped       string            `json:"skipped,omitempty"`
+}
+
+func writeEvidence(ev *Evidence) {
+	os.MkdirAll(filepath.Join(verifRoot, "evidence"), 0o755)
+	b, _ := json.MarshalIndent(ev, "", " ")
+	os.WriteFile(filepath.Join(verifRoot, "evidence", ev.PropertyID+".json"), b, 0o644)
+}
+
+func loadChecks() (map[string]*PropCfg, error) {
+	b, err := os.ReadFile(filepath.Join(verifRoot, "checks.json"))
+	if err != nil {
+		return nil, err
+	}
+	m := map[string]*PropCfg{}
+	if err := json.Unmarshal(b, &m); err != nil {
+		return nil, err
+	}
+	return m, nil
+}
+
+func cmdCheck(args []string) {
+	fs := flag.NewFlagSet("check", flag.ExitOnError)
+	prop := fs.String("property", "", "property id")
+	tier := fs.String("tier", "", "quick | thorough")
+	only := fs.String("only", "", "run only this harness (development)")
+	workers := fs.Int("workers", runtime.NumCPU(), "parallel workers")
+	fs.Parse(args)
+	if *tier == "" {
+		*tier = os.Getenv("VERIF_TIER")
+	}
+	if *tier != "thorough" {
+		*tier = "quick"
+	}
+	seed, _ := strconv.Atoi(os.Getenv("VERIF_SEED"))
+	t0 := time.Now()
+	id := *prop
+	inconclusive := func(format string, a ...interface{}) {
+		msg := fmt.Sprintf(format, a...)
+		fmt.Printf("INCONCLUSIVE property=%s %s\n", id, msg)
+		ev := &Evidence{PropertyID: id, Tier: *tier, Seed: seed, Level: "model_checking",
+			Coverage: map[string]interface{}{"evaluations": 0, "distinct_nontrivial": 0, "explanation": "run inconclusive: " + msg},
+			WallS:    time.Since(t0).Seconds()}
+		writeEvidence(ev)
+		os.Exit(2)
+	}
+	checks, err := loadChecks()
+	if err != nil {
+		inconclusive("cannot load checks.json: %v", err)
+	}
+	cfg := checks[id]
+	if cfg == nil {
+		inconclusive("no check configured")
+	}
+	hcfgs := cfg.Quick
+	if *tier == "thorough" {
+		hcfgs = cfg.Thorough
+	}
+	prog, pkg, skippedFiles, err := loadProgram(harnessFiles())
+	if err != nil {
+		inconclusive("cannot load /repo with harness overlay: %v", err)
+	}
+	loadS := time.Since(t0).Seconds()
+	var liveFiles []string
+	for _, f := range harnessFiles() {
+		sk := false
+		for _, s := range skippedFiles {
+			if s == "zz_verif_"+filepath.Base(f) {
+				sk = true
+			}
+		}
+		if !sk {
+			liveFiles = append(liveFiles, f)
+		}
+	}
+	rp := startReplayBuild(pkg, liveFiles, id+"_"+*tier)
+
+	openKF := map[string]KnownFinding{}
+	for _, kf := range loadKnownFindings() {
+		if kf.State == "open" && kf.Property == id {
+			openKF[kf.Tag] = kf
+		}
+	}
+
+	var reports []harnessReport
+	type cand struct {
+		v    Violation
+		file string
+	}
+	var cands []cand
+	var wits []Witness
+	var witFiles []string
+	funcs := map[string]int{}
+	var samples []interface{}
+	var problems []string
+	totalStates, totalTrans := 0, 0
+	nfile := 0
+	for _, hc := range hcfgs {
+		if *only != "" && hc.Name != *only {
+			continue
+		}
+		rep := harnessReport{Name: hc.Name, Params: hc.Params}
+		if pkg.Func(hc.Name) == nil {
+			if hc.Optional {
+				rep.Skipped = "harness not available (its overlay file no longer type-checks against /repo)"
+				reports = append(reports, rep)
+				continue
+			}
+			inconclusive("harness %s not found", hc.Name)
+		}
+		solvers := append([]string{hc.Solver}, hc.Cross...)
+		var first *RunStats
+		for si, sv := range solvers {
+			if sv == "" {
+				sv = "z3"
+			}
+			ex := &Explorer{prog: prog, pkg: pkg, harness: hc.Name, params: hc.Params, workers: *workers,
+				solver: sv, timeoutMs: 60000, unwind: 70, maxSteps: 2_000_000_000, witnessN: hc.Witness,
+				mapReverse: hc.MapReverse, openKF: openKF, seed: seed}
+			if hc.Workers > 0 {
+				ex.workers = hc.Workers
+			}
+			if hc.TimeoutMs > 0 {
+				ex.timeoutMs = hc.TimeoutMs
+			}
+			if hc.Unwind > 0 {
+				ex.unwind = hc.Unwind
+			}
+			if hc.BudgetS > 0 {
+				ex.deadline = time.Now().Add(time.Duration(hc.BudgetS) * time.Second)
+			}
+			if si > 0 {
+				ex.witnessN = 0
+			}
+			st := ex.Run()
+			if si == 0 {
+				first = st
+				rep.Solver = sv
+				rep.Paths, rep.Done, rep.Infeasible = st.Paths, st.Done, st.Infeasible
+				rep.Forks, rep.Pruned, rep.UnknownFeas = st.Forks, st.Pruned, st.UnknownFeas
+				rep.Asserts, rep.Folded, rep.AssertQueries, rep.AssertUnknown = st.Asserts, st.Folded, st.AssertQueries, st.AssertUnknown
+				rep.UnwindHits, rep.PanicPaths, rep.ErrorPaths = st.UnwindPaths, st.PanicPaths, st.ErrorPaths
+				rep.Queries = st.Solver.ByKind
+				rep.SolverS = st.Solver.Time.Seconds()
+				rep.WallS = st.Wall.Seconds()
+				rep.Steps = st.Steps
+				rep.Reached = st.Reached
+				rep.Incomplete = st.Incomplete
+				rep.Unwind = ex.unwind
+				for k, v := range st.ParamsUsed {
+					if rep.Params == nil {
+						rep.Params = map[string]int{}
+					}
+					rep.Params[k] = v
+				}
+				for f, c := range st.Funcs {
+					funcs[f] += c
+				}
+				totalStates += st.Done
+				totalTrans += st.Forks
+				for _, s := range st.Samples {
+					samples = append(samples, map[string]interface{}{"harness": hc.Name, "path": s})
+				}
+				for _, e := range st.Errors {
+					problems = append(problems, hc.Name+": "+e)
+				}
+				if st.Incomplete {
+					problems = append(problems, hc.Name+": exploration incomplete (budget)")
+				}
+				if st.AssertUnknown > 0 {
+					problems = append(problems, fmt.Sprintf("%s: %d assertion queries unknown/timeout", hc.Name, st.AssertUnknown))
+				}
+				if st.Solver.Errors > 0 {
+					problems = append(problems, fmt.Sprintf("%s: %d solver error lines (%s)", hc.Name, st.Solver.Errors, lastSolverError))
+				}
+				if st.SortLong > 0 {
+					problems = append(problems, fmt.Sprintf("%s: payload sort model used beyond 12 elements", hc.Name))
+				}
+				if st.Done == 0 {
+					problems = append(problems, hc.Name+": no path completed (vacuous)")
+				}
+				for _, v := range st.Violations {
+					v.Property = id
+					nfile++
+					f := filepath.Join(outDir(), "replay", fmt.Sprintf("%s-%s-%d.json", id, hc.Name, nfile))
+					b, _ := json.MarshalIndent(v, "", " ")
+					os.WriteFile(f, b, 0o644)
+					cands = append(cands, cand{v, f})
+				}
+				for _, w := range st.Witnesses {
+					nfile++
+					f := filepath.Join(outDir(), "replay", fmt.Sprintf("%s-%s-w%d.json", id, hc.Name, nfile))
+					b, _ := json.Marshal(w)
+					os.WriteFile(f, b, 0o644)
+					wits = append(wits, w)
+					witFiles = append(witFiles, f)
+				}
+			} else {
+				if rep.Cross == nil {
+					rep.Cross = map[string]string{}
+				}
+				same := st.Paths == first.Paths && st.Done == first.Done && violKeys(st) == violKeys(first) && st.AssertUnknown == 0 && st.ErrorPaths == 0
+				rep.Cross[sv] = fmt.Sprintf("paths=%d done=%d violations=%s agree=%v solver_s=%.1f", st.Paths, st.Done, violKeys(st), same, st.Solver.Time.Seconds())
+				if !same {
+					problems = append(problems, fmt.Sprintf("%s: solver %s disagrees with %s (%s vs paths=%d done=%d violations=%s)", hc.Name, sv, rep.Solver, rep.Cross[sv], first.Paths, first.Done, violKeys(first)))
+				}
+			}
+		}
+		reports = append(reports, rep)
+	}
+
+	// native replay of candidates and witnesses
+	var files []string
+	for _, c := range cands {
+		files = append(files, c.file)
+	}
+	files = append(files, witFiles...)
+	var native map[string]nativeResult
+	if len(files) > 0 {
+		native, err = rp.run(files, 5000)
+		if err != nil {
+			problems = append(problems, "native replay: "+err.Error())
+		}
+	} else {
+		<-rp.ready
+		if rp.buildErr != "" {
+			problems = append(problems, rp.buildErr)
+		}
+	}
+	nViol := 0
+	var vioLines, kfLines []string
+	kfSeen := map[string]bool{}
+	for _, c := range cands {
+		nr, ok := native[c.file]
+		repro := false
+		if ok {
+			switch c.v.Kind {
+			case "assert", "known":
+				repro = nr.Status == "assert" && nr.ID == c.v.ID
+			case "panic":
+				repro = nr.Status == "panic"
+			case "unwind":
+				repro = nr.Status == "timeout"
+			}
+		}
+		if !repro {
+			problems = append(problems, fmt.Sprintf("solver model for %s %s did not reproduce natively (native status %q id %q): encoding defect, not a finding; replay=%s", c.v.Kind, c.v.ID, nr.Status, truncate(nr.ID, 200), c.file))
+			continue
+		}
+		if c.v.Kind == "known" {
+			if !kfSeen[c.v.Tag] {
+				kfSeen[c.v.Tag] = true
+				kfLines = append(kfLines, fmt.Sprintf("KNOWN-FINDING: property=%s %s [%s, assertion %s, replay=%s]", id, openKF[c.v.Tag].What, c.v.Tag, c.v.ID, c.file))
+			}
+			continue
+		}
+		nViol++
+		keep := filepath.Join(verifRoot, "out", "violations")
+		os.MkdirAll(keep, 0o755)
+		dst := filepath.Join(keep, filepath.Base(c.file))
+		b, _ := os.ReadFile(c.file)
+		os.WriteFile(dst, b, 0o644)
+		vioLines = append(vioLines, fmt.Sprintf("VIOLATION property=%s replay=%s", id, dst))
+		fmt.Printf("violation detail: harness=%s kind=%s id=%s native=%s\n", c.v.Harness, c.v.Kind, c.v.ID, truncate(nr.ID, 300))
+	}
+	validated := 0
+	for i, w := range wits {
+		nr, ok := native[witFiles[i]]
+		if !ok {
+			continue
+		}
+		good := nr.Status == "done" && strings.Join(nr.Reached, ",") == strings.Join(w.Reached, ",") && len(nr.Obs) == len(w.Obs)
+		if good {
+			for k, o := range w.Obs {
+				var want string
+				if o.IsH {
+					hb := o.H.concrete()
+					want = o.Tag + "=h:" + hex.EncodeToString(hb[:])
+				} else {
+					want = o.Tag + "=u:" + strconv.FormatUint(o.U, 10)
+				}
+				if nr.Obs[k] != want {
+					good = false
+					problems = append(problems, fmt.Sprintf("witness %s: observation %d differs: native %s, symbolic %s", witFiles[i], k, truncate(nr.Obs[k], 100), truncate(want, 100)))
+					break
+				}
+			}
+		} else {
+			problems = append(problems, fmt.Sprintf("witness %s: native run status=%s id=%s reached=%v, symbolic reached=%v", witFiles[i], nr.Status, truncate(nr.ID, 300), nr.Reached, w.Reached))
+		}
+		if good {
+			validated++
+			if len(samples) < 12 {
+				samples = append(samples, map[string]interface{}{"harness": w.Harness, "witness_input": w.Vector, "reached": w.Reached})
+			}
+		}
+	}
+
+	// evidence
+	type fc struct {
+		n string
+		c int
+	}
+	var fl []fc
+	for f, c := range funcs {
+		if strings.Contains(f, "utreexo") && !strings.Contains(f, "verif") && !strings.Contains(f, ".Harness") && !strings.Contains(f, ".Lemma") {
+			fl = append(fl, fc{f, c})
+		}
+	}
+	sort.Slice(fl, func(i, j int) bool { return fl[i].n < fl[j].n })
+	var fnames []string
+	for _, f := range fl {
+		fnames = append(fnames, fmt.Sprintf("%s (x%d)", strings.Replace(f.n, upkg, "utreexo", -1), f.c))
+	}
+	qs, qu, qk := 0, 0, 0
+	solverS := 0.0
+	for _, r := range reports {
+		for _, v := range r.Queries {
+			qs += v[0]
+			qu += v[1]
+			qk += v[2]
+		}
+		solverS += r.SolverS
+	}
+	if len(samples) == 0 {
+		samples = append(samples, "no completed path")
+	}
+	ev := &Evidence{PropertyID: id, Tier: *tier, Seed: seed, Level: "model_checking", Assumptions: cfg.Assumptions,
+		Coverage: map[string]interface{}{
+			"states":                        totalStates,
+			"transitions":                   totalTrans,
+			"traces_validated_against_impl": validated,
+			"samples":                       samples,
+			"explanation":                   "states = completed symbolic paths (each covers every input value satisfying its path condition); transitions = fork decisions; traces_validated = solver witness models replayed against the native build with identical reach markers and observations",
+			"harnesses":                     reports,
+			"functions_encoded":             fnames,
+			"bounds":                        cfg.Bounds[*tier],
+			"symbolic_dimensions":           cfg.Symbolic,
+			"case_split_dimensions":         cfg.CaseSplit,
+			"stubs":                         cfg.Stubs,
+			"outside_claim":                 cfg.Outside,
+			"queries":                       map[string]int{"sat": qs, "unsat": qu, "unknown": qk},
+			"solver_s":                      solverS,
+			"load_and_ssa_build_s":          loadS,
+			"skipped_overlay_files":         skippedFiles,
+			"known_findings_reproduced":     kfLines,
+			"problems":                      problems,
+			"exhaustive":                    false,
+		},
+		WallS: time.Since(t0).Seconds(), Violations: nViol}
+	writeEvidence(ev)
+	for _, r := range reports {
+		fmt.Printf("harness %-28s paths=%d done=%d asserts=%d (folded %d, queries %d) solver=%.1fs wall=%.1fs %s\n", r.Name, r.Paths, r.Done, r.Asserts, r.Folded, r.AssertQueries, r.SolverS, r.WallS, r.Skipped)
+	}
+	for _, l := range kfLines {
+		fmt.Println(l)
+	}
+	for _, l := range vioLines {
+		fmt.Println(l)
+	}
+	fmt.Printf("property=%s tier=%s states=%d witnesses_validated=%d/%d violations=%d wall=%.1fs\n", id, *tier, totalStates, validated, len(wits), nViol, time.Since(t0).Seconds())
+	if nViol > 0 {
+		os.Exit(1)
+	}
+	if len(problems) > 0 {
+		for _, p := range problems {
+			fmt.Println("INCONCLUSIVE:", p)
+		}
+		os.Exit(2)
+	}
+}
+
+func violKeys(st *RunStats) string {
+	m := map[string]bool{}
+	for _, v := range st.Violations {
+		m[v.Kind+":"+v.ID] = true
+	}
+	var ks []string
+	for k := range m {
+		ks = append(ks, k)
+	}
+	sort.Strings(ks)
+	return "[" + strings.Join(ks, " ") + "]"
+}
+
+func cmdReplay(args []string) {
+	if len(args) < 1 {
+		fmt.Fprintln(os.Stderr, "usage: ssa2smt replay <file.json>")
+		os.Exit(2)
+	}
+	_, pkg, skipped, err := loadProgram(harnessFiles())
+	if err != nil {
+		fmt.Fprintln(os.Stderr, err)
+		os.Exit(2)
+	}
+	var live []string
+	for _, f := range harnessFiles() {
+		sk := false
+		for _, s := range skipped {
+			if s == "zz_verif_"+filepath.Base(f) {
+				sk = true
+			}
+		}
+		if !sk {
+			live = append(live, f)
+		}
+	}
+	rp := startReplayBuild(pkg, live, "manual")
+	abs, _ := filepath.Abs(args[0])
+	res, err := rp.run([]string{abs}, 10000)
+	if err != nil {
+		fmt.Fprintln(os.Stderr, err)
+		os.Exit(2)
+	}
+	nr := res[abs]
+	b, _ := json.MarshalIndent(nr, "", " ")
+	fmt.Println(string(b))
+	if nr.Status == "assert" || nr.Status == "panic" || nr.Status == "timeout" {
+		fmt.Println("REPRODUCED")
+		os.Exit(1)
+	}
+}
